@@ -285,6 +285,19 @@ pub const ALIASES: &[(&str, &str)] = &[
     ("thresh(2,pk(A),s:pk(B),sln:older(9))", "thresh(2,c:pk_k(A),sc:pk_k(B),s:or_i(0,n:older(9)))"),
 ];
 
+/// Pairs of different objects (different text, different script).
+pub const DISTINCT: &[(&str, &str)] = &[
+    ("thresh(1,pk(A),s:pk(B),s:pk(C))", "thresh(2,pk(A),s:pk(B),s:pk(C))"),
+    ("thresh(2,pk(A),s:pk(B),s:pk(C))", "thresh(2,pk(A),s:pk(B))"),
+    ("thresh(1,pk(A),s:pk(B))", "thresh(1,pk(A),s:pk(B),s:pk(C))"),
+    ("multi(1,A,B)", "multi(1,A,B,C)"),
+    ("multi(1,A,B)", "multi(2,A,B)"),
+    ("or_b(multi(1,A),s:pk(B))", "or_b(multi(1,A,B),s:pk(C))"),
+    ("and_v(v:pk(A),thresh(1,pk(B),s:pk(C)))", "and_v(v:pk(A),thresh(2,pk(B),s:pk(C)))"),
+    ("or_d(pk(A),older(5))", "or_d(pk(A),older(6))"),
+    ("andor(pk(A),pk(B),pk(C))", "andor(pk(A),pk(C),pk(B))"),
+];
+
 pub const INPUT_CHARSET: &str = "0123456789()[],'/*abcdefgh@:$%{}IJKLMNOPQRSTUVWXYZ&+-.;<=>?!^_|~ijklmnopqrstuvwxyzABCDEFGH`#\"\\ ";
 
 pub struct StorageResult {
@@ -472,6 +485,34 @@ pub fn storage_run(seed: u64, run: u64, doubles: u64, res: &mut StorageResult) {
             Err(_) => {
                 res.violation.get_or_insert(("roundtrip-panic".into(), format!("policy printer/parser panicked on {}", text)));
                 return;
+            }
+        }
+    }
+    // the equality the round-trip checks rest on: objects with different text (different threshold,
+    // different number of children, one tree a prefix of the other) must not compare equal, and
+    // ==, cmp and Hash must agree
+    if run % 16 == 1 {
+        use std::hash::{Hash, Hasher};
+        let h = |m: &Miniscript<String, miniscript::Segwitv0>| {
+            let mut s = std::collections::hash_map::DefaultHasher::new();
+            m.hash(&mut s);
+            s.finish()
+        };
+        for (a, b) in DISTINCT {
+            let pa = Miniscript::<String, miniscript::Segwitv0>::from_str_insane(a);
+            let pb = Miniscript::<String, miniscript::Segwitv0>::from_str_insane(b);
+            if let (Ok(x), Ok(y)) = (pa, pb) {
+                let eq = x == y;
+                let ord = catch_unwind(AssertUnwindSafe(|| x.cmp(&y)));
+                let bad = match ord {
+                    Err(_) => Some("cmp panics".to_string()),
+                    Ok(o) if eq || o == std::cmp::Ordering::Equal || h(&x) == h(&y) => Some(format!("== is {}, cmp is {:?}, hashes {}", eq, o, if h(&x) == h(&y) { "equal" } else { "differ" })),
+                    _ => None,
+                };
+                if let Some(d) = bad {
+                    res.violation.get_or_insert(("equality".into(), format!("{} and {} are different objects with different text, but {}", a, b, d)));
+                    return;
+                }
             }
         }
     }
